@@ -183,7 +183,7 @@ void ramalhete_queue<T, Policies...>::push(value_type value) {
   backoff backoff;
   guard_ptr t;
   for (;;) {
-    // (3) - this acquire-load synchronizes-with the release-CAS (5, 7)
+    // (3) - this acquire-load synchronizes-with the release-CAS (5, 7, 16)
     t.acquire(_tail, std::memory_order_acquire);
 
     unsigned idx = t->push_idx.fetch_add(step_size, std::memory_order_relaxed);
@@ -271,7 +271,13 @@ auto ramalhete_queue<T, Policies...>::pop() -> std::optional<value_type> {
         break; // No more nodes in the queue
       }
 
+      // _tail must not lag behind on the node that is about to be unlinked and reclaimed;
+      // otherwise a push could still reach the node via _tail after it has been retired.
       marked_ptr expected = h;
+      // (16) - this release-CAS synchronizes-with the acquire-load (3)
+      _tail.compare_exchange_strong(expected, next, std::memory_order_release, std::memory_order_relaxed);
+
+      expected = h;
       // (13) - this release-CAS synchronizes-with the acquire-load (1, 9)
       if (_head.compare_exchange_strong(expected, next, std::memory_order_release, std::memory_order_relaxed)) {
         h.reclaim(); // The old node has been unlinked -> reclaim it.
